@@ -5,6 +5,8 @@ import (
 	"os"
 	"path/filepath"
 	"strings"
+
+	"github.com/bmatcuk/doublestar/v4"
 )
 
 var (
@@ -55,14 +57,33 @@ func isSuspiciousPath(path string) bool {
 	return depth > 5
 }
 
-// ExpandHome replaces a leading "~/" by the user's home directory.
-func ExpandHome(p string) string {
-	if strings.HasPrefix(p, "~/") {
+// Glob expands the glob pattern of an include directive found in a file of
+// directory dir. The pattern is what the user wrote: relative to dir, absolute,
+// or home-relative. dir and the home directory are literal paths, not patterns
+// (a folder called "taxes [2024]" holds ordinary files).
+func Glob(dir, pattern string) (string, []string, error) {
+	pattern = ConvertHledgerGlob(pattern)
+	if strings.HasPrefix(pattern, "~/") {
 		if home, err := os.UserHomeDir(); err == nil {
-			return filepath.Join(home, p[2:])
+			dir, pattern = home, pattern[2:]
 		}
 	}
-	return p
+	if filepath.IsAbs(pattern) {
+		matches, err := doublestar.FilepathGlob(pattern)
+		return pattern, matches, err
+	}
+	full := filepath.Join(dir, pattern)
+	base, rest := doublestar.SplitPattern(filepath.ToSlash(filepath.Clean(pattern)))
+	root := filepath.Join(dir, filepath.FromSlash(base))
+	rel, err := doublestar.Glob(os.DirFS(root), rest)
+	if err != nil {
+		return full, nil, err
+	}
+	matches := make([]string, len(rel))
+	for i, m := range rel {
+		matches[i] = filepath.Join(root, filepath.FromSlash(m))
+	}
+	return full, matches, nil
 }
 
 func IsGlobPattern(path string) bool {
